@@ -24,6 +24,7 @@ package casketfile
 //@   ensures [result] result == (d.cursor == old(d.cursor) + 1)
 //@   ensures [in_range] old(d.cursor) >= -1 ==> (result ==> (0 <= d.cursor && d.cursor < len(d.tokens)))
 //@   ensures [stuck] !result ==> old(d.cursor) >= len(d.tokens) - 1
+//@   ensures [advances_iff_more_tokens] result == (old(d.cursor) < len(d.tokens) - 1)
 //@ func (*Dispenser).NextArg
 //@   requires d != nil
 //@   modifies Dispenser.cursor
@@ -31,18 +32,28 @@ package casketfile
 //@   ensures [in_range] old(d.cursor) >= 0 ==> (result ==> (1 <= d.cursor && d.cursor < len(d.tokens)))
 //@   ensures [result] result == (d.cursor == old(d.cursor) + 1)
 //@   ensures [progress_bound] result ==> old(d.cursor) < len(d.tokens) - 1 || old(d.cursor) < 0
+//@   // functional: the next token is an argument of the current line exactly when it comes from the same file and starts on
+//@   // the line where the current token ends (a token may span lines)
+//@   ensures [same_file_same_line] old(d.cursor) >= 0 ==> (result == (old(d.cursor) < len(d.tokens) - 1 && d.tokens[old(d.cursor)].File == d.tokens[old(d.cursor)+1].File && d.tokens[old(d.cursor)].Line + d.numLineBreaks(old(d.cursor)) == d.tokens[old(d.cursor)+1].Line))
+//@   ensures [first_token] old(d.cursor) < 0 ==> result
 //@ func (*Dispenser).NextLine
 //@   requires d != nil
 //@   modifies Dispenser.cursor
 //@   ensures [step] d.cursor == old(d.cursor) || d.cursor == old(d.cursor) + 1
 //@   ensures [result] result == (d.cursor == old(d.cursor) + 1)
 //@   ensures [progress_bound] result ==> old(d.cursor) < len(d.tokens) - 1 || old(d.cursor) < 0
+//@   ensures [next_line_iff_on_new_line] (0 <= old(d.cursor) && old(d.cursor) < len(d.tokens) - 1) ==> (result == isNextOnNewLine(d.tokens[old(d.cursor)], d.tokens[old(d.cursor)+1]))
+//@   ensures [first_token] old(d.cursor) < 0 ==> result
+//@   ensures [at_end] (old(d.cursor) >= 0 && old(d.cursor) >= len(d.tokens) - 1) ==> !result
 //@ func (*Dispenser).nextOnSameLine
 //@   requires d != nil
 //@   modifies Dispenser.cursor
 //@   ensures [step] d.cursor == old(d.cursor) || d.cursor == old(d.cursor) + 1
 //@   ensures [result] result == (d.cursor == old(d.cursor) + 1)
 //@   ensures [progress_bound] result ==> old(d.cursor) < len(d.tokens) - 1 || old(d.cursor) < 0
+//@   ensures [same_line_iff_not_on_new_line] (0 <= old(d.cursor) && old(d.cursor) < len(d.tokens) - 1) ==> (result == !isNextOnNewLine(d.tokens[old(d.cursor)], d.tokens[old(d.cursor)+1]))
+//@   ensures [first_token] old(d.cursor) < 0 ==> result
+//@   ensures [at_end] (old(d.cursor) >= 0 && old(d.cursor) >= len(d.tokens) - 1) ==> !result
 //@ func (*Dispenser).NextBlockNesting
 //@   requires d != nil
 //@   modifies Dispenser.cursor, Dispenser.nesting
@@ -69,7 +80,7 @@ package casketfile
 //@   pure reads Dispenser, E:github.com/tmpim/casket/casketfile.Token
 //@   requires d != nil
 //@ func (*Dispenser).numLineBreaks
-//@   pure reads Dispenser, E:github.com/tmpim/casket/casketfile.Token
+//@   pure reads Dispenser.tokens, E:github.com/tmpim/casket/casketfile.Token
 //@   requires d != nil
 //@ func (*Dispenser).isNewLine
 //@   pure reads Dispenser, E:github.com/tmpim/casket/casketfile.Token
